@@ -23,7 +23,8 @@
        what was written, and save separates any two fields by white space"
 
   as two decidable checks on the extracted table (`agrees`, `separated`), closed by `decide` in
-  `Props.lean`; `FormatLemmas.lean` proves what the checks mean for the flat fragment.
+  `Props.lean`; `FormatLemmas.lean` proves what the checks mean for the flat fragment (`flat_roundtrip`).
+  Callees are normalised when they are inlined.
 -/
 namespace Vita.C11.Fmt
 
@@ -153,7 +154,7 @@ def flat (tbl : Table) : Nat → Fmt → Flags → List Atom × Flags
     match tbl.find k with
     | none => ([.unknown k], s)
     | some body =>
-      let (as, s') := flat tbl fuel body s
+      let (as, s') := flat tbl fuel (norm body) s
       (as, if restores body then s else s')
   | fuel + 1, .seq a b, s =>
     let (x, s1) := flat tbl fuel a s
@@ -173,7 +174,7 @@ def depth : Nat := 400
 def fields (tbl : Table) (k : String) : List Atom :=
   match tbl.find k with
   | none => [.unknown k]
-  | some body => (flat (tbl.map fun e => ⟨e.key, norm e.body⟩) depth (norm body) Flags.dflt).1
+  | some body => (flat tbl depth (norm body) Flags.dflt).1
 
 /-! ### agreement of a save with a load -/
 
@@ -248,6 +249,13 @@ def Edge.alt (a b : Edge) : Edge :=
 def Edge.rep (a : Edge) : Edge :=
   ⟨a.ok && !(a.endTok && a.startTok), true, a.startTok, a.endTok⟩
 
+/-- the branches that surely fail write nothing that matters -/
+def prune : Fmt → Fmt
+  | .seq a b => .seq (prune a) (prune b)
+  | .rep a => .rep (prune a)
+  | .alt a b => if fails a then prune b else if fails b then prune a else .alt (prune a) (prune b)
+  | x => x
+
 def edge (tbl : Table) : Nat → Fmt → Edge
   | 0, _ => ⟨false, true, true, true⟩
   | _ + 1, .skip => .empty
@@ -260,17 +268,10 @@ def edge (tbl : Table) : Nat → Fmt → Edge
   | fuel + 1, .sub k =>
     match tbl.find k with
     | none => ⟨false, true, true, true⟩
-    | some body => edge tbl fuel body
+    | some body => edge tbl fuel (prune body)
   | fuel + 1, .seq a b => (edge tbl fuel a).seq (edge tbl fuel b)
   | fuel + 1, .rep a => (edge tbl fuel a).rep
   | fuel + 1, .alt a b => (edge tbl fuel a).alt (edge tbl fuel b)
-
-/-- the branches that surely fail write nothing that matters -/
-def prune : Fmt → Fmt
-  | .seq a b => .seq (prune a) (prune b)
-  | .rep a => .rep (prune a)
-  | .alt a b => if fails a then prune b else if fails b then prune a else .alt (prune a) (prune b)
-  | x => x
 
 /-- inside `k` no two fields touch, and `k` does not end with a field (so that whatever is written
     next cannot merge with it) -/
@@ -278,7 +279,7 @@ def separated (tbl : Table) (k : String) : Bool :=
   match tbl.find k with
   | none => false
   | some body =>
-    let e := edge (tbl.map fun e => ⟨e.key, prune e.body⟩) depth (prune body)
+    let e := edge tbl depth (prune body)
     e.ok && !e.endTok
 
 end Vita.C11.Fmt
